@@ -457,7 +457,7 @@ impl Gen {
                 // transfer hook (simulator's hook program, needs a token badge) on some mints
                 let hook = rng.chance(knobs.hook_pct, 100);
                 // extension list order is initialisation order, not type order: sometimes a high-numbered extension comes first
-                let meta_ptr = *rng.pick(&[0u8, 0, 1, 2]);
+                let meta_ptr = *rng.pick(&[0u8, 0, 1, 2, 3, 4, 5, 6]);
                 world::create_mint_2022_full(&mut l, &payer, mk, &mint_authority, 6, fee, None, hook, meta_ptr);
                 if hook {
                     let ce = ix::pda_config_extension(&config);
